@@ -198,7 +198,16 @@ fn guarded_check<P: Prop>(ctx: &mut Ctx, case: &P::Case) -> Outcome {
     let _ = take_last_panic();
     let res = std::panic::catch_unwind(std::panic::AssertUnwindSafe(|| P::check(ctx, case)));
     match res {
-        Ok(o) => o,
+        Ok(mut o) => {
+            // a panic on another thread (the store actor, a spawned task) during the case is a failure too
+            if let Some(msg) = take_last_panic() {
+                if !o.failed() {
+                    let head: String = msg.chars().take(120).collect();
+                    o.fail(format!("panic-in-other-thread:{head}"), msg);
+                }
+            }
+            o
+        }
         Err(_) => {
             let msg = take_last_panic().unwrap_or_else(|| "panic".into());
             let mut o = Outcome::default();
